@@ -39,7 +39,7 @@ pub fn judge(ctx: &mut Ctx, r: &Range, source: &str, from_parse: bool) {
     // cannot be written in range syntax: one root cause, one signature family
     let oversize = rb.versions().iter().any(|v| v.major > crate::mv::MAX_SAFE || v.minor > crate::mv::MAX_SAFE || v.patch > crate::mv::MAX_SAFE);
     let cls = if oversize { "bound-above-MAX_SAFE".to_string() } else { shape_of(&rb) };
-    let printed = match guarded(|| r.to_string()) {
+    let printed = match guarded(|| crate::observe::print_after_failed_prints(&Range::any(), r)) {
         Ok(p) => p,
         Err(p) => {
             ctx.violation(&format!("panic/display/{}", p.site), w, p.message);
@@ -137,13 +137,23 @@ pub fn judge(ctx: &mut Ctx, r: &Range, source: &str, from_parse: bool) {
                 ctx.violation(&format!("json/not-printed-string/{}", cls), w, format!("serialized {} but printed form is {:?}", j, printed));
                 return;
             }
-            match guarded(|| serde_json::from_str::<Range>(&j)) {
-                Ok(Ok(d)) => {
-                    if d != s {
-                        ctx.violation(&format!("json/differs/{}", cls), w, format!("JSON {} deserializes to {:?}", j, d));
+            match guarded(|| crate::json_front_ends!(Range, &j)) {
+                Ok(all) => {
+                    for (front, res) in all {
+                        match res {
+                            Ok(d) => {
+                                if d != s {
+                                    ctx.violation(&format!("json/differs/{}", cls), w, format!("JSON {} deserializes through {} to {:?}", j, front, d));
+                                    return;
+                                }
+                            }
+                            Err(e) => {
+                                ctx.violation(&format!("json/deserialize-fails/{}", cls), w, format!("through serde_json::{}: {}", front, e));
+                                return;
+                            }
+                        }
                     }
                 }
-                Ok(Err(e)) => ctx.violation(&format!("json/deserialize-fails/{}", cls), w, e.to_string()),
                 Err(p) => ctx.violation(&format!("panic/json/{}", p.site), w, p.message),
             }
         }
